@@ -465,11 +465,13 @@ def _build_eval_tree(
                     )
                 elif prev_op == "(":
                     # close parenthetical group
-                    assert result is not None
+                    if result is None:
+                        raise DefinitionSyntaxError("missing operand in tokens")
                     return result, index
                 else:
                     # parenthetical group ending, but we need to close sub-operations within group
-                    assert result is not None
+                    if result is None:
+                        raise DefinitionSyntaxError("missing operand in tokens")
                     return result, index - 1
             elif token_text == "(":
                 # gather parenthetical group
@@ -530,11 +532,13 @@ def _build_eval_tree(
                 raise DefinitionSyntaxError("unclosed parentheses in tokens")
             if depth > 0 or prev_op:
                 # have to close recursion
-                assert result is not None
+                if result is None:
+                    raise DefinitionSyntaxError("missing operand in tokens")
                 return result, index
             else:
                 # recursion all closed, so just return the final result
-                assert result is not None
+                if result is None:
+                    raise DefinitionSyntaxError("missing operand in tokens")
                 return result, -1
 
         if index + 1 >= len(tokens):
